@@ -2,7 +2,11 @@
 //! against a scripted service thread of the harness (C20).
 //!
 //! Case:
-//!   (cli <form> x<listen> x<url> <args> <more t|f> <color> (frames <frame>*))
+//!   (cli <form> x<listen> x<url> <args> <more t|f> <color> (frames <frame>* [hold]) [(decoy x<addr>)])
+//!     hold   = after the frames the service keeps the connection open (a monitor-style stream): the harness
+//!              reads the tool's stdout while it runs, waits (<= 3 s) for the documents of the successful
+//!              replies sent so far, then kills the tool; exit is `hung`
+//!     decoy  = a second scripted service (answers {"who":"decoy"}) on a neighbouring address
 //!     form   = path | abstract | tcp | resolver | nolisten
 //!     listen = address template the scripted service listens on; placeholders @DIR@ (fresh temporary
 //!              directory), @ABS@ (unique abstract-socket prefix), @PORT@ (free TCP port)
@@ -13,7 +17,7 @@
 //!              first request of the connection, then the service shuts down its sending side
 //!
 //! Observation:
-//!   (cli-obs (conns n) (resolver -|x<interface>) (log <req>*) (stdout <json>*) <clean t|f> <exit> <report>)
+//!   (cli-obs (conns n) (decoy n) (resolver -|x<interface>) (log <req>*) (stdout <json>*) <clean t|f> <exit> <report>)
 //!     report = - | (std x<short> x<param>) | (named x<name> <json|->) | failed | (msg <class>)
 use crate::rng::Rng;
 use crate::suites::client::{frame_sx, part_sx, req_sx};
@@ -105,7 +109,7 @@ struct Served {
 }
 
 /// accept connections until told to stop; answer the first request of each with `reply`
-fn serve(l: Listener, reply: Vec<u8>, stop: Arc<AtomicBool>) -> std::thread::JoinHandle<Served> {
+fn serve(l: Listener, reply: Vec<u8>, hold: bool, stop: Arc<AtomicBool>) -> std::thread::JoinHandle<Served> {
     std::thread::spawn(move || {
         let mut out = Served { conns: 0, log: Vec::new() };
         loop {
@@ -129,7 +133,9 @@ fn serve(l: Listener, reply: Vec<u8>, stop: Arc<AtomicBool>) -> std::thread::Joi
                                     first = false;
                                     let _ = w.write_all(&reply);
                                     let _ = w.flush();
-                                    w.shut_wr();
+                                    if !hold {
+                                        w.shut_wr();
+                                    }
                                 }
                             }
                         }
@@ -212,10 +218,27 @@ fn varlink_bin() -> std::path::PathBuf {
     exe.parent().unwrap().join("varlink")
 }
 
-fn frames_bytes(frames: &Sx) -> Vec<u8> {
+/// bytes to send, whether the connection is then held open, and how many leading frames are successful replies
+fn frames_bytes(frames: &Sx) -> (Vec<u8>, bool, usize, usize) {
     let mut bytes = Vec::new();
+    let mut hold = false;
+    let mut good = 0usize;
+    let mut counting = true;
+    let mut total = 0usize;
     for f in &frames.as_list().unwrap()[1..] {
+        if f.as_atom() == Some("hold") {
+            hold = true;
+            continue;
+        }
+        total += 1;
         let fl = f.as_list().unwrap();
+        let is_good = fl[0].as_atom() == Some("f")
+            && fl[2].as_list().map(|d| d.len() == 4 && d[2].as_atom() == Some("-")).unwrap_or(false);
+        if counting && is_good {
+            good += 1;
+        } else {
+            counting = false;
+        }
         match fl[0].as_atom().unwrap() {
             "f" => {
                 bytes.extend_from_slice(&fl[1].as_bytes().unwrap());
@@ -225,7 +248,12 @@ fn frames_bytes(frames: &Sx) -> Vec<u8> {
             other => panic!("frame kind {}", other),
         }
     }
-    bytes
+    (bytes, hold, good, total)
+}
+
+fn count_docs(raw: &[u8]) -> usize {
+    let text = strip_ansi(&String::from_utf8_lossy(raw));
+    serde_json::Deserializer::from_str(&text).into_iter::<Value>().take_while(|r| r.is_ok()).count()
 }
 
 fn free_port() -> u16 {
@@ -244,7 +272,11 @@ fn run_cli(input: &Sx) -> Sx {
     };
     let more = l[5].as_atom() == Some("t");
     let color = l[6].as_atom().unwrap().to_string();
-    let reply = frames_bytes(&l[7]);
+    let (reply, hold, good, total) = frames_bytes(&l[7]);
+    // the tool keeps waiting only if every frame is a successful reply (and it asked for more)
+    let hold = hold && good == total && more;
+    let keep_open = frames_bytes(&l[7]).1;
+    let decoy_t: Option<String> = l.get(8).and_then(|d| d.as_list()).and_then(|d| d.get(1)).and_then(|a| a.as_str());
 
     let n = COUNTER.fetch_add(1, Ordering::SeqCst);
     let dir = std::env::temp_dir().join(format!("vvcli-{}-{}", std::process::id(), n));
@@ -256,14 +288,19 @@ fn run_cli(input: &Sx) -> Sx {
     let url = subst(&url_t);
 
     let stop = Arc::new(AtomicBool::new(false));
-    let main_srv = if form == "nolisten" { None } else { bind(&listen).map(|l| serve(l, reply, stop.clone())) };
+    let main_srv = if form == "nolisten" { None } else { bind(&listen).map(|l| serve(l, reply, keep_open, stop.clone())) };
+    let decoy_srv = decoy_t.map(|d| subst(&d)).and_then(|d| bind(&d)).map(|l| {
+        let mut rb = serde_json::to_vec(&json!({"parameters": {"who": "decoy"}})).unwrap();
+        rb.push(0);
+        serve(l, rb, false, stop.clone())
+    });
     // the resolver stub answers Resolve with the address of the scripted service
     let resolver_addr = format!("unix:{}/resolver", dir.to_str().unwrap());
     let resolver_seen: Arc<Mutex<Vec<Vec<u8>>>> = Arc::new(Mutex::new(Vec::new()));
     let res_srv = if form == "resolver" {
         let mut rb = serde_json::to_vec(&json!({"parameters": {"address": listen}})).unwrap();
         rb.push(0);
-        bind(&resolver_addr).map(|l| serve(l, rb, stop.clone()))
+        bind(&resolver_addr).map(|l| serve(l, rb, false, stop.clone()))
     } else {
         None
     };
@@ -286,10 +323,17 @@ fn run_cli(input: &Sx) -> Sx {
     let mut child = cmd.spawn().expect("spawn varlink");
     let mut so = child.stdout.take().unwrap();
     let mut se = child.stderr.take().unwrap();
+    // stdout is read while the tool runs: what has been printed so far is observable at any time
+    let out_buf: Arc<Mutex<Vec<u8>>> = Arc::new(Mutex::new(Vec::new()));
+    let out_buf2 = out_buf.clone();
     let t_out = std::thread::spawn(move || {
-        let mut v = Vec::new();
-        let _ = so.read_to_end(&mut v);
-        v
+        let mut tmp = [0u8; 4096];
+        loop {
+            match so.read(&mut tmp) {
+                Ok(0) | Err(_) => break,
+                Ok(n) => out_buf2.lock().unwrap().extend_from_slice(&tmp[..n]),
+            }
+        }
     });
     let t_err = std::thread::spawn(move || {
         let mut v = Vec::new();
@@ -297,12 +341,21 @@ fn run_cli(input: &Sx) -> Sx {
         v
     });
     let deadline = Instant::now() + Duration::from_secs(8);
+    // a held stream: give the tool 3 s to show the replies that have arrived, then end it
+    let hold_deadline = Instant::now() + Duration::from_secs(3);
+    let hold_min = Instant::now() + Duration::from_millis(300);
     let mut hung = false;
     let status = loop {
         match child.try_wait() {
             Ok(Some(st)) => break Some(st),
             Ok(None) => {
-                if Instant::now() > deadline {
+                let now = Instant::now();
+                let shown = if hold { count_docs(&out_buf.lock().unwrap()) } else { 0 };
+                if now > deadline || (hold && (now > hold_deadline || (shown >= good && (good > 0 || now > hold_min)))) {
+                    if hold && shown >= good {
+                        // a little longer: anything printed beyond the expected documents is an observation too
+                        std::thread::sleep(Duration::from_millis(60));
+                    }
                     let _ = child.kill();
                     let _ = child.wait();
                     hung = true;
@@ -313,10 +366,12 @@ fn run_cli(input: &Sx) -> Sx {
             Err(_) => break None,
         }
     };
-    let stdout = t_out.join().unwrap_or_default();
+    let _ = t_out.join();
+    let stdout = out_buf.lock().unwrap().clone();
     let stderr = t_err.join().unwrap_or_default();
     stop.store(true, Ordering::SeqCst);
     let served = main_srv.map(|h| h.join().unwrap()).unwrap_or(Served { conns: 0, log: Vec::new() });
+    let decoy_conns = decoy_srv.map(|h| h.join().unwrap().conns).unwrap_or(0);
     if let Some(h) = res_srv {
         let s = h.join().unwrap();
         *resolver_seen.lock().unwrap() = s.log;
@@ -359,6 +414,7 @@ fn run_cli(input: &Sx) -> Sx {
         "cli-obs",
         vec![
             sx::tagged("conns", vec![sx::nat(served.conns)]),
+            sx::tagged("decoy", vec![sx::nat(decoy_conns)]),
             sx::tagged("resolver", vec![resolver]),
             sx::list(logsx),
             sx::list(docs),
@@ -480,7 +536,18 @@ fn gen_error(rng: &mut Rng) -> (String, Option<Value>) {
         3 => (STD[3].into(), if rng.chance(1, 2) { None } else { Some(json!({"method": 5})) }),
         4 => ("org.example.cli.Custom".into(), None),
         5 => ("org.example.cli.Custom".into(), gen_params(rng)),
-        6 => ("org.example.cli.Ünï".into(), Some(json!({"why": gen_string(rng)}))),
+        6 => match rng.below(3) {
+            0 => ("org.example.cli.Ünï".into(), Some(json!({"why": gen_string(rng)}))),
+            // user errors that merely share the unqualified name of a standard error
+            1 => (
+                format!("com.example.{}", *rng.pick(&["InvalidParameter", "MethodNotFound", "MethodNotImplemented", "InterfaceNotFound"])),
+                Some(json!({"field": "size", "limit": 64, "parameter": "p", "method": "m", "interface": "i"})),
+            ),
+            _ => (
+                format!("org.varlink.service.sub.{}", *rng.pick(&["InvalidParameter", "MethodNotFound"])),
+                if rng.chance(1, 2) { None } else { Some(json!({"parameter": "x"})) },
+            ),
+        },
         _ => (STD[rng.below(4)].into(), crate::suites::client::gen_error_params(rng)),
     }
 }
@@ -506,6 +573,12 @@ fn gen_frames(rng: &mut Rng, more: bool, tags: &mut Vec<String>) -> Sx {
             let b = reply_bytes(rng, Some(true), None, p);
             frames.push(frame_sx(&b));
         }
+    }
+    if more && rng.chance(1, 12) {
+        // a monitor-style stream: the replies so far, then the connection stays open
+        frames.push(sx::atom("hold"));
+        tags.push("final:held-open".into());
+        return sx::list(frames);
     }
     match rng.below(20) {
         0 => {
@@ -557,7 +630,26 @@ fn gen_case(rng: &mut Rng) -> Case {
         3 => "x.y.z.W".to_string(),
         _ => format!("org.example.cli.M{}", rng.below(100)),
     };
-    let (form, listen, url) = match rng.below(20) {
+    let mut decoy: Option<String> = None;
+    let (form, listen, url) = match rng.below(23) {
+        20 => {
+            // an abstract name that ends in '/' or '/.': the split is at the LAST slash; a sibling service listens
+            // on the name without that ending
+            let tail = *rng.pick(&["/", "/.", "/x/", "//"]);
+            let l = format!("unix:@@ABS@{}", tail);
+            decoy = Some(format!("unix:@@ABS@{}", tail.trim_end_matches('.').trim_end_matches('/')));
+            ("abstract", l.clone(), format!("{}/{}", l, method))
+        }
+        21 => {
+            // a socket path followed by '/' or '/.': names something below the socket, which cannot be connected
+            let tail = *rng.pick(&["/", "/."]);
+            ("path", "unix:@DIR@/sock".to_string(), format!("unix:@DIR@/sock{}/{}", tail, method))
+        }
+        22 => {
+            // directory components '.' and doubled slashes inside the path are the kernel's business, not the tool's
+            let l = *rng.pick(&["unix:@DIR@/./sock", "unix:@DIR@//sock", "unix:@DIR@/d/../sock"]);
+            ("path", l.to_string(), format!("{}/{}", l, method))
+        }
         0..=5 => {
             let sub = *rng.pick(&["", "/a", "/a/b.c/d", "/with.dots/and spaces", "/ü/é"]);
             let l = format!("unix:@DIR@{}/sock", sub);
@@ -623,7 +715,13 @@ fn gen_case(rng: &mut Rng) -> Case {
     Case {
         input: sx::tagged(
             "cli",
-            vec![sx::atom(form), sx::xs(&listen), sx::xs(&url), args, sx::boolean(more), sx::atom(color), frames],
+            {
+                let mut v = vec![sx::atom(form), sx::xs(&listen), sx::xs(&url), args, sx::boolean(more), sx::atom(color), frames];
+                if let Some(d) = decoy {
+                    v.push(sx::tagged("decoy", vec![sx::xs(&d)]));
+                }
+                v
+            },
         ),
         tags,
     }
